@@ -7,6 +7,20 @@ V = os.path.dirname(os.path.dirname(os.path.abspath(__file__)))
 props = [json.loads(l) for l in open(os.path.join(V, "properties.jsonl"))]
 
 CLAIMED = {
+    "C14": dict(
+        technique="static analysis: rustc-checked type-level witnesses (auto-trait reachability, compile-fail with twins) + syn span-use / ordering rules + MIR reachability",
+        text="Decides non-interference of layout-dependent data with the output: no HumanSpan and no ExprId is reachable in the types the emitters receive (auto-trait witnesses compiled against /repo, each with a failing twin), arena ids have no ordering and their number is read only by Index/Display (Display unreachable from main), "
+        "spans outside the parser flow only into diagnostics, definitions are name-keyed and collected before any pass. Category 'other': the type-level part is a proof by rustc, the rest structural rules. Does not decide that the parser builds the same tree for re-laid-out text (C05's territory).",
+        note="trusted: rustc's trait solver and type checker (nightly auto_traits/negative_impls); rustc MIR call graph; syn's parse",
+        design="5/C14",
+    ),
+    "C09": dict(
+        technique="static analysis: identity-field analysis of the alphabet type (derive lists vs matched word), key-coarsening rule on table builders, type-level NoSpan witness",
+        text="Decides which fields take part in the symbol equality used by the subset construction and whether each extra field is covered by a rejecting validation; reports every table that re-keys transitions by a lossy projection; shows spans cannot be part of symbol identity. "
+        "Two design-level defects are open known findings (fallback level in identity; structural interning of within-word automata); a new identity field or projection is reported as a new violation. Does not decide the `||`/`|` equivalence over all grammars.",
+        note="trusted: derive(PartialEq, Eq, Hash) semantics; rustc's trait solver for the witness; the table of 'which field is the matched word' in props/c09.py",
+        design="5/C09",
+    ),
     "C13": dict(
         technique="static analysis: MIR scan for LocatedSpan constructions (resolved callee + generics) judged by syntactic context; syn provenance rules for span flow and 0/1-based units",
         text="Decides on /repo's current source that located positions cannot be corrupted structurally: a LocatedSpan is wrapped only at the parser entry (other constructions are value-only), every from_range takes an earlier and a later remaining input of the same parse, "
@@ -100,6 +114,7 @@ m = {
     },
     "engines": [
         {"name": "M mirfacts", "path": "tools/mirfacts", "serves_properties": ["C06", "C10", "C13"], "kind_free_text": "rustc_private driver (RUSTC_WORKSPACE_WRAPPER under cargo +nightly check through tools/shim/rustc): MIR CFG, resolved callees, assert kinds, types; analyses in vlib/mir.py, vlib/rules_panic.py"},
+        {"name": "W witness", "path": "tools/witness", "serves_properties": ["C09", "C14"], "kind_free_text": "harness crate path-depending on /repo, compiled by nightly rustc: auto-trait reachability witnesses and compile_fail twins (vlib/witness.py)"},
         {"name": "S srcfacts", "path": "tools/srcfacts", "serves_properties": sorted(CLAIMED), "kind_free_text": "syn 2 syntax-tree dump (JSON) of /repo/src/*.rs; provenance resolver and rules in vlib/*.py"},
     ],
     "checks": checks,
